@@ -160,14 +160,19 @@ pub fn j_doy(year: i32, day: u32, frac: f64, ts: TimeScale, out: &mut Local) {
     let args = vec![year.to_string(), day.to_string(), ef64(frac), scale_name(ts).to_string()];
     let r = guard(|| {
         let e = Epoch::from_day_of_year(year, doy, ts);
-        (e, e.year(), e.day_of_year(), e.year_days_of_year())
+        (e, e.year(), e.day_of_year(), e.year_days_of_year(), alpha(e.duration_in_year()))
     });
     // the epoch itself: start of year + (doy - 1) days, truncated to ns
     let (zd, zt) = scales::gregorian_zero(ts);
     let start = (days1900(year as i64, 1, 1) - zd) as i128 * NS_DAY - zt;
     let want = start + crate::oracle::ulp::trunc_i128((doy - 1.0) * NS_DAY as f64);
     match r {
-        Ok((e, y, d, yd)) => {
+        Ok((e, y, d, yd, diy)) => {
+            // duration_in_year: elapsed civil time since 1 January 00:00:00 of the epoch's year in its own scale, exact
+            if (alpha(e.duration) - want).abs() <= 1 && y == year && diy != alpha(e.duration) - start {
+                out.viol("c20.doy", "duration_in_year-wrong".into(), args, enc(alpha(e.duration) - start), enc(diy));
+                return;
+            }
             let tol = 8.0 * crate::oracle::ulp::ulp_of(366.0) + 2.0 / NS_DAY as f64;
             if e.time_scale != ts || (alpha(e.duration) - want).abs() > 1 {
                 out.viol("c20.doy", format!("epoch-wrong,diff={}", diffclass(alpha(e.duration), want)), args, describe(want), describe(alpha(e.duration)));
@@ -189,7 +194,7 @@ pub fn j_doy(year: i32, day: u32, frac: f64, ts: TimeScale, out: &mut Local) {
 pub fn run(rep: &mut Report) {
     let q = rep.quick();
     let leap = LeapTable::load().expect("leap").0;
-    rep.rule = "weeks {0,1,2,1023,1024,2047,2048,5217..5219 (one century),170 000, MAX/week +-1, u32::MAX} x ns-of-week {0,1,day+-1,week-1,week,week+1,2^63,u64::MAX} x 9 scales through from_time_of_week (+ _utc) and back; to_time_of_week on the non-negative part of the epoch lattice x 9 scales; u64 counters {0,1,century-1,century,century+1,2^63,u64::MAX,...} x 4 GNSS scales; counter reads from the epoch lattice in 7 scales (negative and >= one century must be Err); (year, day of year) for 13 years (every year 0001-9999 thorough, every 7th day) x every whole day x fractions {0,1/4,1/2,0.999} x 9 scales. Non-trivial = non-canonical/saturating input, week boundary, count >= one century, first/last day of the year.".into();
+    rep.rule = "weeks {0,1,2,1023,1024,2047,2048,5217..5219 (one century),170 000, MAX/week +-1, u32::MAX} x ns-of-week {0,1,day+-1,week-1,week,week+1,2^63,u64::MAX} x 9 scales through from_time_of_week (+ _utc) and back; to_time_of_week on the non-negative part of the epoch lattice x 9 scales; u64 counters {0,1,century-1,century,century+1,2^63,u64::MAX,...} x 4 GNSS scales; counter reads from the epoch lattice in 7 scales (negative and >= one century must be Err); (year, day of year) for 13 years (every year 0001-9999 thorough, every 7th day) x every whole day x fractions {0,1/4,1/2,0.999,0.99999,1-1e-9} x 9 scales. Non-trivial = non-canonical/saturating input, week boundary, count >= one century, first/last day of the year.".into();
     rep.assumptions = vec!["negative counts are outside to_time_of_week's quantifier (don't-care)".into()];
     let max_w = (DMAX / WEEK) as u32;
     let weeks: Vec<u32> = vec![0, 1, 2, 1023, 1024, 2047, 2048, 5217, 5218, 5219, 170_000, max_w - 1, max_w, max_w + 1, u32::MAX];
@@ -235,7 +240,8 @@ pub fn run(rep: &mut Report) {
     }
     years.sort();
     years.dedup();
-    let fr = [0.0, 0.25, 0.5, 0.999];
+    // fractions of a day: quarter points, the last minutes, the last second (23:59:59.136) and the last 100 us of the day
+    let fr = [0.0, 0.25, 0.5, 0.999, 0.99999, 1.0 - 1e-9];
     let mut cases: Vec<(i32, u32)> = vec![];
     for y in &years {
         let n = year_len(*y as i64) as u32;
@@ -247,9 +253,9 @@ pub fn run(rep: &mut Report) {
     }
     rep.bound("doy_cases", cases.len() as u64);
     let nc = cases.len() as u64;
-    sweep(rep, "c20.doy", nc * 4 * 9, |i, out| {
-        let (y, d) = cases[(i / 36) as usize];
-        j_doy(y, d, fr[((i / 9) % 4) as usize], SCALES[(i % 9) as usize], out)
+    sweep(rep, "c20.doy", nc * 6 * 9, |i, out| {
+        let (y, d) = cases[(i / 54) as usize];
+        j_doy(y, d, fr[((i / 9) % 6) as usize], SCALES[(i % 9) as usize], out)
     });
 }
 
